@@ -263,3 +263,83 @@ func H_C09_reader() {
 	verif.Assert(verif.Unchanged(snap, d.doc), "document-unchanged")
 	verif.Reach("end")
 }
+
+var reuseSelectors = []string{"arr[(1:end)]", "arr[(begin:end)]", "arr[(begin:1)]", "arr[(0:end)].b", "arr[each].b", "rag.v[(begin:end)]", "rag.v[(1:end)]", "arr[0]", "arr.b"}
+
+// H_C09_reuse: the same selector text evaluated on several documents (and
+// over ragged arrays inside one document) gives each document's own
+// answer: parsed selectors are cached per text and must not keep state.
+func H_C09_reuse() {
+	si := verif.Choose("selector", len(reuseSelectors))
+	sel := reuseSelectors[si]
+	mk := func() (Map, []any, []any) {
+		n := verif.Choose("arr", 4)
+		arr := make([]any, n)
+		for i := range arr {
+			v := verif.F64("b")
+			verif.Assume(v == v)
+			arr[i] = Map{"b": v}
+		}
+		rag := make([]any, 2)
+		var ragv []any
+		for i := range rag {
+			k := verif.Choose("rag", 3)
+			v := numArray(k, "v")
+			rag[i] = Map{"v": v}
+			ragv = append(ragv, v)
+		}
+		return Map{"arr": arr, "rag": rag}, arr, ragv
+	}
+	want := func(arr []any, ragv []any) (any, bool) {
+		switch si {
+		case 0:
+			if len(arr) < 1 {
+				return nil, true
+			}
+			return arr[1:], false
+		case 1:
+			return arr, false
+		case 2:
+			if len(arr) < 1 {
+				return nil, true
+			}
+			return arr[:1], false
+		case 3, 4, 8:
+			return bsOf(arr), false
+		case 5:
+			return ragv, false
+		case 6:
+			out := make([]any, len(ragv))
+			for i, v := range ragv {
+				if len(v.([]any)) < 1 {
+					return nil, true
+				}
+				out[i] = v.([]any)[1:]
+			}
+			return out, false
+		default:
+			if len(arr) < 1 {
+				return nil, true
+			}
+			return arr[0], false
+		}
+	}
+	for round := 0; round < 2; round++ {
+		doc, arr, ragv := mk()
+		v, err, pan := tryCall(func() (any, error) { return ExecReader(doc, sel) })
+		verif.Assert(!pan, "no-panic")
+		if pan {
+			return
+		}
+		w, wantErr := want(arr, ragv)
+		if wantErr {
+			verif.Assert(err != nil, "wrong-shape-is-error")
+		} else {
+			verif.Assert(err == nil, "no-error")
+			if err == nil {
+				verif.Assert(verif.Eq(v, w), "value")
+			}
+		}
+	}
+	verif.Reach("end")
+}
